@@ -40,6 +40,13 @@ func (h *c09H) Panic0()             { h.hit(1); panic("boom") }
 func (h *c09H) Other1(a int) int    { h.hit(100); return -1 }
 func (h *c09H) Void1(a string)      { h.hit(100) }
 
+// Open0 returns a channel that stays open for as long as the connection lives (an open subscription).
+func (h *c09H) Open0(ctx context.Context) (<-chan int, error) {
+	ch := make(chan int)
+	go func() { <-ctx.Done(); close(ch) }()
+	return ch, nil
+}
+
 type c09Elem struct {
 	id, req string
 	idRaw   string // "" when absent
@@ -351,6 +358,38 @@ func c09WS(rng *rand.Rand, row map[string]interface{}) (map[string]interface{}, 
 		return nil, err
 	}
 	defer conn.Close()
+	// history of the connection: an earlier request whose id one of this row's frames will use again is still an open
+	// subscription (ids are the peer's business; every request frame with a valid id is owed its own response)
+	if rng.Intn(2) == 0 {
+		for _, e := range els {
+			var probe interface{}
+			if e.idRaw == "" || json.Unmarshal([]byte(e.idRaw), &probe) != nil {
+				continue
+			}
+			if _, isS := probe.(string); !isS {
+				if _, isN := probe.(float64); !isN {
+					continue
+				}
+			}
+			if err := conn.WriteMessage(websocket.TextMessage, []byte(`{"jsonrpc":"2.0","method":"S.Open0","params":[],"id":`+e.idRaw+`}`)); err != nil {
+				return nil, err
+			}
+			for {
+				conn.SetReadDeadline(time.Now().Add(5 * time.Second))
+				_, msg, err := conn.ReadMessage()
+				if err != nil {
+					return nil, fmt.Errorf("ws read (subscription preamble): %w", err)
+				}
+				var obj map[string]json.RawMessage
+				if json.Unmarshal(msg, &obj) == nil {
+					if _, isReq := obj["method"]; !isReq {
+						break // the response announcing the channel
+					}
+				}
+			}
+			break
+		}
+	}
 	for _, e := range els {
 		mt := websocket.TextMessage
 		if rng.Intn(4) == 0 {
